@@ -61,7 +61,8 @@ EXEMPT_WHOLE = {"mjtObj": "object-type tag; determined by the checked sensor/tra
 
 ARRAY_BODY = ["missing = ~np.isin(field, field_type)", "if missing.any():"]
 SCALAR_BODY = ["if field not in set(field_type):"]
-FLAGS_BODY = ["unsupported = field & ~np.bitwise_or.reduce(field_type)", "if unsupported:"]
+FLAGS_BODY = ["unsupported = int(field) & ~int(np.bitwise_or.reduce(field_type))", "if unsupported:"]
+FLAGS_BODY_OLD = ["unsupported = field & ~np.bitwise_or.reduce(field_type)", "if unsupported:"]  # before 6da38bb: same set of rejected words
 
 
 def _parse(name):
@@ -143,7 +144,7 @@ def _table_loop(st):
   heads = []
   for b in st.body:
     heads.append(U(b).split("\n")[0])
-  kind = {tuple(ARRAY_BODY): "array", tuple(SCALAR_BODY): "scalar", tuple(FLAGS_BODY): "flags"}.get(tuple(heads))
+  kind = {tuple(ARRAY_BODY): "array", tuple(SCALAR_BODY): "scalar", tuple(FLAGS_BODY): "flags", tuple(FLAGS_BODY_OLD): "flags"}.get(tuple(heads))
   if kind is None:
     raise ExtractError(f"rejection loop with unknown body {heads}")
   last = st.body[-1]
